@@ -487,6 +487,13 @@ def main_wrapper(pid, build, level='model_checking'):
         traceback.print_exc()
         write_failure_evidence(ctx, str(e))
         code = 2
+    except SystemExit:
+        raise
+    except BaseException as e:      # a crash of the machinery is never a verdict: exit 2, not 1
+        log('INCONCLUSIVE property=%s internal error %s: %s' % (pid, type(e).__name__, e))
+        traceback.print_exc()
+        write_failure_evidence(ctx, 'internal error %s: %s' % (type(e).__name__, e))
+        code = 2
     sys.exit(code)
 
 
